@@ -81,7 +81,7 @@ pub fn simple_limit() -> Duration {
 pub fn parse_limit() -> Duration {
     env_ms("SQV_PARSE_LIMIT_MS", 120_000)
 }
-const HELPER_STACK: usize = 256 << 20;
+const HELPER_STACK: usize = 64 << 20;
 
 fn own_task_dir() -> Option<String> {
     std::fs::read_link("/proc/thread-self").ok().map(|p| format!("/proc/{}", p.display()))
